@@ -151,6 +151,48 @@ def check(prog: Program, tier: str) -> Result:
     stats = site_obligations(prog, res, "R8.2", need_bare=True)
     _producer(prog, res)
     _magic_methods(prog, res)
+    # R8.5: the names used by the preserved files are READ FROM DISK for every run: no memo between the files and `preserve`
+    from . import c05 as _c05
+    anchors = set()
+    for fn in prog.funcs.values():
+        if fn.mod.name != "main":
+            continue
+        # repository calls whose result flows (through locals) into a `preserve` argument of this function
+        from ..defuse import bindings
+        flows = set()
+        for c in prog.calls_in(fn):
+            for kw in c.keywords:
+                if kw.arg == "preserve":
+                    flows |= {x.id for x in ast.walk(kw.value) if isinstance(x, ast.Name)}
+            r = prog.resolve_call(c.func, fn.mod, fn)
+            if r and r[0] == "fn" and "preserve" in r[1].posparams:
+                i = r[1].posparams.index("preserve")
+                if i < len(c.args):
+                    flows |= {x.id for x in ast.walk(c.args[i]) if isinstance(x, ast.Name)}
+            # the worker tuples of the pool dispatch
+            if isinstance(c.func, ast.Attribute) and c.func.attr in ("starmap", "map", "imap", "imap_unordered", "apply_async"):
+                for a in c.args[1:]:
+                    flows |= {x.id for x in ast.walk(a) if isinstance(x, ast.Name)}
+        for _ in range(4):
+            more = set()
+            for nm in flows:
+                for _s, v in bindings(fn).get(nm, []):
+                    if v is not None:
+                        more |= {x.id for x in ast.walk(v) if isinstance(x, ast.Name)}
+            if more <= flows:
+                break
+            flows |= more
+        for nm in flows:
+            for _s, v in bindings(fn).get(nm, []):
+                for x in (ast.walk(v) if v is not None else []):
+                    if isinstance(x, ast.Call):
+                        r = prog.resolve_call(x.func, fn.mod, fn)
+                        if r and r[0] == "fn":
+                            anchors.add(r[1].key)
+    n_memo = _c05.adopt_memo_rule(prog, res, "R8.5", anchors,
+                                  "the preserve set must reflect the preserved files as they are NOW: a memo keyed by the path hands a later run the names of an earlier version of the file")
+    res.ok("R8.5", "pyrefact/main.py", "main", f"memoised functions between the preserved files and `preserve` # {len(anchors)} producer function(s) followed",
+           f"{n_memo} memoised function(s) reachable, each judged above", trivial=bool(n_memo))
     res.floors.update({"R8.1": 10, "R8.2": 8, "R8.3": 3, "R8.4": 1})
     res.analysed.update(stats)
     return res
